@@ -56,8 +56,13 @@ class Arr(AV):
     kind = "arr"
 
     def __init__(self, space, q=None, mono=None, nonneg=False, is_mask=False,
-                 mkey=None, const=None):
+                 mkey=None, const=None, rank=False):
         self.space = norm_space(space)
+        # running quantity of the row order (a cumulative sum is somewhere
+        # in its history): equal keys do not imply equal values. Kept by
+        # with_ and by arithmetic; constructors that do not know lose it
+        # (towards "not known to be a running quantity")
+        self.rank = rank
         self.q = q
         self.mono = mono
         self.nonneg = nonneg
@@ -68,7 +73,7 @@ class Arr(AV):
     def with_(self, **kw):
         d = dict(space=self.space, q=self.q, mono=self.mono,
                  nonneg=self.nonneg, is_mask=self.is_mask, mkey=self.mkey,
-                 const=self.const)
+                 const=self.const, rank=self.rank)
         d.update(kw)
         return Arr(**d)
 
@@ -363,6 +368,8 @@ class Align:
                         if not same_space(val.space, want):
                             self.issue("scatter assignment of a misaligned "
                                        "array", t)
+                    self.events.add("scatter", value=val, perm=idx,
+                                    term=show(t, 200))
                 return prev.with_(mono=None, const=None)
             return prev
         if k == "mut":
@@ -467,7 +474,7 @@ class Align:
                 mono = a.mono
             nonneg = a.nonneg and b.nonneg and op in ("+", "*", "/")
             return Arr(a.space, q=("expr", show(t, 160)), mono=mono,
-                       nonneg=nonneg)
+                       nonneg=nonneg, rank=a.rank or b.rank)
         if isinstance(a, Arr) or isinstance(b, Arr):
             arr, sc = (a, b) if isinstance(a, Arr) else (b, a)
             if isinstance(sc, (Opaque, TupleV)) and not isinstance(
@@ -506,7 +513,7 @@ class Align:
             else:
                 mono = None
             return Arr(arr.space, q=("expr", show(t, 160)), mono=mono,
-                       nonneg=nonneg)
+                       nonneg=nonneg, rank=arr.rank)
         if isinstance(a, Scalar) and isinstance(b, Scalar):
             if a.has_const and b.has_const:
                 try:
@@ -874,7 +881,7 @@ class Align:
     def _cumsum(self, t, v):
         self.events.add("cumsum", operand=v, term=show(t, 200))
         if isinstance(v, Arr):
-            return v.with_(q=("cumsum", v.q),
+            return v.with_(q=("cumsum", v.q), rank=True,
                            mono="INC" if v.nonneg or v.is_mask else None,
                            nonneg=v.nonneg or v.is_mask, is_mask=False,
                            const=None)
